@@ -2,6 +2,7 @@ package props
 
 import (
 	"context"
+	"encoding/pem"
 	"crypto/tls"
 	"fmt"
 	"net"
@@ -26,13 +27,17 @@ import (
 
 // C12: with AutoMTLS every plugin connection is mutually authenticated.
 
-var c12Creds = []string{"plaintext", "tls-nocert", "tls-selfsigned", "tls-samename"}
+var c12Creds = []string{"plaintext", "tls-nocert", "tls-selfsigned", "tls-samename", "tls-chain-hostcert"}
+
+// the host certificate as an intruder can read it from the environment of the
+// plugin process (/proc/<pid>/environ): public, but only the host has its key
+var c12HostCertPEM []byte
 var c12Paths = []string{"main", "plugin-brokered", "host-brokered"}
 
 func init() {
 	Register(&Prop{ID: "C12",
 		Meta: Meta{Level: "fault_enumeration",
-			Rule:       "AutoMTLS host + real plugin (net/rpc, gRPC, gRPC+mux) + an intruder process that reads listener addresses from the kernel's socket table and attacks a connection path {main listener, plugin-side brokered listener, host-side brokered listener} with a credential class {plaintext, TLS without client certificate, TLS with a fresh self-signed certificate, TLS with a certificate carrying the right names but another key}, before or after the legitimate peer connects, then attempts a yamux+net/rpc call or gRPC health / PingPong / plugin-service call; for gRPC+mux, where brokered connections are yamux streams of the main connection, an on-path observer parses the yamux framing on the wire and requires every stream to start, in both directions, with a TLS handshake record; and an impostor plugin that announces certificate A in the handshake and serves with certificate B. Matrix path x credential x protocol x timing enumerated, seeded timing and schedule noise on top. Oracle: no intruder call is ever answered, the plugin's served-request counter equals the legitimate host's calls, the legitimate host works or gets an error (never hangs), and against the impostor the first use fails",
+			Rule:       "AutoMTLS host + real plugin (net/rpc, gRPC, gRPC+mux) + an intruder process that reads listener addresses from the kernel's socket table and attacks a connection path {main listener, plugin-side brokered listener, host-side brokered listener} with a credential class {plaintext, TLS without client certificate, TLS with a fresh self-signed certificate, TLS with a certificate carrying the right names but another key, TLS with an own leaf followed by the host certificate read from the environment of the plugin process}, before or after the legitimate peer connects, then attempts a yamux+net/rpc call or gRPC health / PingPong / plugin-service call; for gRPC+mux, where brokered connections are yamux streams of the main connection, an on-path observer parses the yamux framing on the wire and requires every stream to start, in both directions, with a TLS handshake record; and an impostor plugin that announces certificate A in the handshake and serves with certificate B. Matrix path x credential x protocol x timing enumerated, seeded timing and schedule noise on top. Oracle: no intruder call is ever answered, the plugin's served-request counter equals the legitimate host's calls, the legitimate host works or gets an error (never hangs), and against the impostor the first use fails",
 			Exhaustive: "connection path x credential class x protocol x {before, after the legitimate peer}; impostor x protocol"},
 		Plan: func(tier string, seed uint64, stage int, prev []*h.Result) []*k.Spec {
 			if stage > 0 {
@@ -90,10 +95,16 @@ func init() {
 
 func intruderTLS(cred string) *tls.Config {
 	cfg := &tls.Config{InsecureSkipVerify: true, ServerName: "localhost", MinVersion: tls.VersionTLS12}
-	if cred == "tls-selfsigned" || cred == "tls-samename" {
+	if cred == "tls-selfsigned" || cred == "tls-samename" || cred == "tls-chain-hostcert" {
 		certPEM, keyPEM := h.SelfSignedPEM()
 		c, err := tls.X509KeyPair(certPEM, keyPEM)
 		if err == nil {
+			if cred == "tls-chain-hostcert" {
+				// own leaf (own key), followed by the host certificate as if it were the issuer
+				if blk, _ := pem.Decode(c12HostCertPEM); blk != nil {
+					c.Certificate = append(c.Certificate, blk.Bytes)
+				}
+			}
 			cfg.Certificates = []tls.Certificate{c}
 		}
 	}
@@ -284,6 +295,11 @@ func runC12(r *h.Run) {
 	if o := r.DoNoHang("Start", 90*time.Second, ctx, func() (any, error) { return cl.Start() }); o.Err != nil || o.Hung {
 		r.Violate("setup", "start failed "+ctx, fmt.Sprint(o.Err))
 		return
+	}
+	if pp := w.ProcByName("plugin"); pp != nil {
+		if v, ok := pp.Getenv("PLUGIN_CLIENT_CERT"); ok {
+			c12HostCertPEM = []byte(v)
+		}
 	}
 	if when == "before" && path == "main" {
 		startIntruder()
